@@ -11,7 +11,7 @@
 (* SaslServerTrace reads the bytes back and decides.                        *)
 (***************************************************************************)
 EXTENDS Naturals, Sequences, FiniteSets, Json, TLC
-CONSTANTS LONG, MAXCUTS, FULL3
+CONSTANTS LONG, MAXCUTS, FULL3, ALLCFG
 
 Cfgs == [mech : {"EXT", "ANON"}, creds : BOOLEAN, canfd : BOOLEAN]
 A(m, i) == [k |-> "AUTH", mech |-> m, id |-> i]
@@ -47,7 +47,8 @@ vars == <<cfg, lines, nul, fam, cuts, done>>
 
 Init ==
   /\ cfg \in Cfgs /\ cuts = {} /\ done = FALSE
-  /\ \/ fam = "seq" /\ nul = TRUE /\ lines \in SeqsOver(Full, 1) \cup SeqsOver(Red, LONG - 1)
+  /\ \/ fam = "seq" /\ nul = TRUE /\ lines \in SeqsOver(Full, 1)
+     \/ fam = "seq" /\ nul = TRUE /\ lines \in SeqsOver(Red, LONG - 1) /\ (ALLCFG \/ cfg.canfd)
      \/ fam = "seq" /\ nul = FALSE /\ lines \in {<<A("EXT", "match")>>, <<A("ANON", "match")>>, <<K("LFSTART")>>}
      \/ fam = "cut" /\ nul = TRUE /\ lines \in Reps /\ cfg.canfd /\ cfg.creds
 
